@@ -9,6 +9,7 @@ import (
 	"path/filepath"
 	"sort"
 	"strings"
+	"syscall"
 	"time"
 
 	"github.com/hashicorp/go-slug/sourceaddrs"
@@ -322,6 +323,17 @@ func runShip(sc *bw.Scenario, book *simkit.TapeBook, cl *closure, res *vresult, 
 			defer os.Remove("/w/extracted-link")
 		}
 	}
+	fpRoot := ""
+	if !sc.LinkRoots && sc.Seed%3 == 0 {
+		// the caller names the destination relative to its working directory, climbing first
+		os.MkdirAll("/w/elsewhere/deep", 0o755)
+		if os.Chdir("/w/elsewhere/deep") == nil {
+			defer os.Chdir("/cwd")
+			fpRoot = dst
+			dst = "../.." + strings.TrimPrefix(dst, "/w")
+			out.Probe("extract-into-relative-destination")
+		}
+	}
 	// What the builder and the fetcher peer created carries wall-clock times, which end up in
 	// the archive headers and so in the length of the compressed stream. They are data of
 	// this run, not clock readings of the code under test: pin them, so that the same
@@ -374,7 +386,11 @@ func runShip(sc *bw.Scenario, book *simkit.TapeBook, cl *closure, res *vresult, 
 		if rerr == nil && b2 != nil {
 			// legitimate only if the break came after everything the receiver needs
 			// (behind the end-of-archive marker): then what arrived must be complete
-			if d := diffLists(orig, fingerprint(b2, dst, sc, cl)); d != "" {
+			root2 := dst
+			if fpRoot != "" {
+				root2 = fpRoot
+			}
+			if d := diffLists(orig, fingerprint(b2, root2, sc, cl)); d != "" {
 				out.Violate("C12", "extract-ok-on-broken-stream", "partial", fmt.Sprintf("the pipe broke after %d bytes, ExtractArchive returned a bundle, and it differs: %s", breakAt, d))
 			}
 			compareTreesAs(root, realDst, out, "archive extracted from a broken pipe", "C12")
@@ -389,11 +405,14 @@ func runShip(sc *bw.Scenario, book *simkit.TapeBook, cl *closure, res *vresult, 
 		out.Violate("C09", "archive-fails", "extract", fmt.Sprintf("ExtractArchive of WriteArchive's output fails: %v", rerr))
 		return
 	}
-	if d := diffLists(orig, fingerprint(b2, dst, sc, cl)); d != "" {
+	if fpRoot == "" {
+		fpRoot = dst
+	}
+	if d := diffLists(orig, fingerprint(b2, fpRoot, sc, cl)); d != "" {
 		out.Violate("C09", "extract-differs", "accessors", "extracted bundle differs: "+d)
 	}
 	compareTrees(root, realDst, out, "extracted archive")
-	if dst != realDst {
+	if dst != realDst && sc.LinkRoots {
 		checkLinkedRoot(b2, dst, out, "C09", "archive extracted into a directory named by way of a symlink")
 		out.Probe("shipped-through-link")
 	}
@@ -640,7 +659,18 @@ func runSynthetic(sc *bw.Scenario, log *simkit.Log, out *simkit.Outcome) {
 			os.MkdirAll(dir+"/"+d+"/m1", 0o755)
 			os.WriteFile(dir+"/"+d+"/main.tf", []byte(d), 0o644)
 		}
-		os.WriteFile(dir+"/terraform-sources.json", []byte(*sc.Manifest), 0o644)
+		switch *sc.Manifest {
+		case "@FIFO@":
+			// a named pipe where the manifest should be: opening it must not be waited for
+			syscall.Mkfifo(dir+"/terraform-sources.json", 0o644)
+		case "@LINK-FIFO@":
+			syscall.Mkfifo(dir+"/m.fifo", 0o644)
+			os.Symlink("m.fifo", dir+"/terraform-sources.json")
+		case "@DIR@":
+			os.Mkdir(dir+"/terraform-sources.json", 0o755)
+		default:
+			os.WriteFile(dir+"/terraform-sources.json", []byte(*sc.Manifest), 0o644)
+		}
 		log.Add(0, "op-start", "OpenDir synthetic")
 		var b *sourcebundle.Bundle
 		var err error
@@ -657,6 +687,28 @@ func runSynthetic(sc *bw.Scenario, log *simkit.Log, out *simkit.Outcome) {
 		if err == nil {
 			checkOpened(b, dir, out, "synthetic manifest")
 			checkReverseOnDisk(b, dir, out, "synthetic manifest")
+			// what a manifest means is a function of its bytes: opened again and again it answers alike
+			regAnswers := func(b *sourcebundle.Bundle) string {
+				var ls []string
+				for _, rp := range b.RegistryPackages() {
+					for _, v := range b.RegistryPackageVersions(rp) {
+						src, ok := b.RegistryPackageSourceAddr(rp, v)
+						dep := b.RegistryPackageVersionDeprecation(rp, v)
+						ls = append(ls, fmt.Sprintf("%s@%s => %s %v dep=%v", rp, v, src, ok, dep != nil))
+					}
+				}
+				return strings.Join(ls, " ; ")
+			}
+			first := regAnswers(b)
+			for k := 0; k < 8; k++ {
+				if bk, err := sourcebundle.OpenDir(dir); err != nil {
+					out.Violate("C18", "open-unstable", "refused-later", fmt.Sprintf("the same manifest, opened again, is refused: %v", err))
+					break
+				} else if again := regAnswers(bk); again != first {
+					out.Violate("C18", "open-unstable", "registry-answers", fmt.Sprintf("the same manifest, opened again, answers differently: %q then %q", first, again))
+					break
+				}
+			}
 		} else {
 			out.Probe("hostile-manifest-refused")
 		}
